@@ -1376,3 +1376,26 @@ def build_model(F):
     summ = compute_summaries(F, own_direct, own_containers)
     ret_owned, mv = returns_owned(F, own_direct, own_containers, summ)
     return own_direct, own_containers, summ, ret_owned, mv
+
+
+def rule_sock_type(ctx, cfg, F):
+    F = F.nodrop() if hasattr(F, "nodrop") else F
+    R = ctx.rule("SOCK-TYPE", "every socket of the unix backend is created SOCK_SEQPACKET: one send is one packet and one receive returns it whole -- the fragment protocol counts on it "
+                 "(`result > 0` means the fragment went out entire; a stream socket may accept a prefix and report success)")
+    n = 0
+    for f in sorted(F.fns.values(), key=lambda x: x.path):
+        if not f.path.startswith("platform::unix"):
+            continue
+        ex = Expr(f)
+        for b, t in f.calls_to("libc::socket", "libc::socketpair"):
+            n += 1
+            v = const_eval(ex.of_operand(t["args"][1]))
+            vals = [v] if v is not None else possible_consts(f, t["args"][1])
+            if not vals:
+                R.violate("%s:socket-type-unresolved" % f.path, "the type operand of %s is not a resolvable constant" % strip_generics(callee_name(t)), f.path, f.loc(b), config=cfg)
+            elif all((x & 0xf) == 5 for x in vals):
+                R.ok("%s in %s creates SOCK_SEQPACKET sockets" % (strip_generics(callee_name(t)).split("::")[-1], f.path), f.loc(b), cfg)
+            else:
+                R.violate("%s:not-seqpacket" % f.path, "%s in %s can create a socket of type %s, not SOCK_SEQPACKET: packet boundaries are lost and a partial send counts as a sent fragment" % (
+                    strip_generics(callee_name(t)).split("::")[-1], f.path, ", ".join(str(x & 0xf) for x in sorted(vals) if (x & 0xf) != 5)), f.path, f.loc(b), config=cfg)
+    R.count("socket_sites[%s]" % cfg, n)
